@@ -351,6 +351,25 @@ impl GenSource {
             gen_ldh_name(rng)
         };
         let suffix = rng.chance(2, 3);
+        if rng.chance(1, 10) && !names.is_empty() {
+            // aim at the 255-byte limit: pick a name, a proper suffix of it as source, and a target
+            // that makes the rewritten name exactly 254, 255 or 256 bytes long
+            let n = rng.pick(&names).clone();
+            if n.0.len() >= 2 {
+                let k = rng.range(1, n.0.len() - 1);
+                let prefix_len: usize = n.0[..k].iter().map(|l| l.len() + 1).sum();
+                let src = Name(n.0[k..].to_vec());
+                let want = 255i64 - prefix_len as i64 + *rng.pick(&[-1i64, 0, 0, 1]);
+                if want >= 3 && want <= 255 {
+                    let tgt = gen_name_of_len(rng, want as usize);
+                    return Op::Rename {
+                        target: tgt.wire(),
+                        source: src.wire(),
+                        suffix: true,
+                    };
+                }
+            }
+        }
         if overflow {
             return match rng.below(5) {
                 0 => Op::Rename {
